@@ -253,9 +253,43 @@ def serializer_obligations(ctx, facts, rule=None, scope="all"):
             return "variant:any"
         return "other:" + show_canon(c)[:80]
 
+    def first_flag_guard(bb):
+        """is block bb reached only on the `not the first iteration` side of a loop-carried flag?  (`let mut first = true;
+        for .. { if first { first = false } else { emit } }`): the flag starts true, the loop only ever stores false, and bb
+        lies behind the edge taken when it is false -- the same information as an enumerate() index > 0"""
+        from purlsa import scanact
+        lb = body.loops().get(h, set())
+        st = scanact.state_locals(body, lb)
+        for d in sorted(lb):
+            sl = scanact.switch_local(body, d)
+            if sl is None or sl[1] or sl[0] not in st or d == bb or not body.dominates(d, bb):
+                continue
+            F, _, _, neg = sl
+            info = st[F]
+            inits = [v for v in info["init"]]
+            inside = [scanact.const_state_value(strip(body._rv_term(dd[3]))) for dd in body.defs()[F] if dd[0] in lb and dd[2] == "rv"]
+            if inits != [("bool", True)] or not inside or any(v != ("bool", False) for v in inside):
+                continue
+            edges = {}
+            for (lab, tg) in body.edges(d):
+                if lab == "otherwise" or lab == ("sw", 0):
+                    edges[(lab == "otherwise") != neg] = tg
+            tT, tF = edges.get(True), edges.get(False)
+            if tT is None or tF is None or tT == tF:
+                continue
+            single = lambda b_: len([p_ for p_ in body.preds()[b_] if not body.is_cleanup(p_)]) == 1  # noqa: E731
+            # the flag is cleared on the `first` side only, and on every way from there to the next iteration
+            defs_in = [dd[0] for dd in body.defs()[F] if dd[0] in lb and dd[2] == "rv"]
+            cleared = single(tT) and all(b_ == tT or body.dominates(tT, b_) for b_ in defs_in) and any(h not in body.reachable_from(tT, avoid={b_}) or b_ == tT for b_ in defs_in)
+            if cleared and single(tF) and (tF == bb or body.dominates(tF, bb)):
+                return True
+        return False
+
     variants = {}
     for e in emits:
         kinds = [guard_kind(c, accn) for c in e["catoms"]]
+        if classify(e) == ("lit", ",") and "acc-nonempty" not in kinds and e["bb"] in body.loops().get(h, set()) and first_flag_guard(e["bb"]):
+            kinds.append("acc-nonempty")
         vs = [k.split(":")[1] for k in kinds if k.startswith("variant:") and k != "variant:any"]
         e["_kinds"] = kinds
         e["_cls"] = classify(e)
